@@ -1831,6 +1831,9 @@ func (query *Query) exec() (result any, err error) {
 	if limit >= len(rs) {
 		limit = len(rs)
 	}
+	if limit > len(rs)-offset {
+		limit = len(rs) - offset
+	}
 	rs = rs[offset:][:limit]
 FINALIZE:
 	if query.options.completed != nil {
